@@ -159,4 +159,15 @@ META = {
         "relabel",
         ["hill_moved", "hill_local_optimum_checked", "tree_estimator_reused"],
     ),
+    "C12": _m(
+        "one evaluation = one simulated run: a ground-truth DAG on 2..5 (6 thorough) string-labelled nodes, then 1..3 operations: PC.estimate with variant in "
+        "{orig, stable, parallel}, exact independence information given either as the full list of true pairwise statements (independence_match) or as a callable "
+        "d-separation oracle (with a PRNG-chosen column order), max_cond_vars = n, return_type in {skeleton, pdag, cpdag, dag}, under the SimParallel stub; or "
+        "PDAG.to_dag on the CPDAG of a random DAG, on a further oriented version of it, or on an arbitrary PDAG over its skeleton (only PDAGs with a consistent "
+        "extension by brute force).  Oracle: skeleton equals the DAG's and every stored separating set d-separates; pdag/cpdag equals the brute-force CPDAG (all "
+        "DAGs with the same skeleton and v-structures); dag result acyclic with the same skeleton and v-structures; to_dag result acyclic, same skeleton, all "
+        "directed edges kept, no new v-structure.  Non-trivial = at least one checked operation; distinct = distinct trace digest.",
+        "faults: relabel (hash order drives pair visiting and rule firing order), option_swarm, worker_batching / worker_reorder / worker_isolation (parallel variant)",
+        ["non_cpdag_pdag_extended"],
+    ),
 }
